@@ -1450,6 +1450,10 @@ def c18(tier, rng):
         t = open(f, encoding='utf-8').read()
         if NAT['clock'] not in t:
             bases.append(t)
+    # the re-execution programs (closures that escape loops, recursion through loops, factories, …) as further bases
+    from .camp_reexec import reexec_programs
+    rxp = [src for _, src in reexec_programs('quick')]
+    bases += rxp if tier == 'thorough' else rxp[::3]
     lexed = lexemes_of(bases)
     cases = []
     backs = {}
@@ -1504,13 +1508,22 @@ def c18(tier, rng):
                 g = f'pre{gi}'; gi += 1
                 cases.append(prog_case(f'{P} {y} {o2} {pre}{x};\n', 'base', group=g))
                 cases.append(prog_case(f'{P} {y} {o2} ({pre}{x});\n', 'ladder-parens', group=g))
+    # a callee is a value-producing sub-expression like any other, also when its name is that of a built-in (a parameter may be)
+    for nm in NAT.values():
+        pre_ = f'{FUN} tw(x) {{ {RET} [x, "mine"]; }}\n'
+        g = f'callee{gi}'; gi += 1
+        cases.append(prog_case(pre_ + f'{FUN} run({nm}) {{ {P} {nm}(4); {P} {nm}; }}\nrun(tw);\nrun(5);\n', 'base', group=g))
+        cases.append(prog_case(pre_ + f'{FUN} run({nm}) {{ {P} ({nm})(4); {P} ({nm}); }}\nrun(tw);\nrun(5);\n', 'ladder-parens', group=g))
+        g = f'callee{gi}'; gi += 1
+        cases.append(prog_case(f'{P} {nm};\n{VAR} h = {nm};\n{P} h == {nm};\n', 'base', group=g))
+        cases.append(prog_case(f'{P} ({nm});\n{VAR} h = ({nm});\n{P} (h) == (({nm}));\n', 'ladder-parens', group=g))
     for chain, grouped in [('a = b = 3', 'a = (b = 3)'), ('t[0][1]', '(t[0])[1]'), ('o.p.q', '(o.p).q'), ('f(1)(2)', '(f(1))(2)'), ('-t[0][1]', '-((t[0])[1])'), ('!o.p.q', '!((o.p).q)'), ('2 ** -1', '2 ** (-1)')]:
         pre_ = f'{VAR} a = 0; {VAR} b = 0; {VAR} t = [[1, 2]]; {VAR} o = {{p: {{q: 5}}}}; {FUN} f(x) {{ {FUN} g(y) {{ {RET} x + y; }} {RET} g; }}\n'
         g = f'chain{gi}'; gi += 1
         cases.append(prog_case(pre_ + f'{P} {chain};\n', 'base', group=g))
         cases.append(prog_case(pre_ + f'{P} {grouped};\n', 'ladder-parens', group=g))
     rule = (f'every ordered pair of the {len(allops)} binary operators, and every prefix operator before / after each, written plain and parenthesised as the ladder prescribes ({gi} pairs of programs); '
-            f'{len(bases)} programs (generated, a third fault-free, and the shipped examples) x 11 variants: re-laid-out twice with blanks, tabs, line breaks outside ধরি declarations and {len(COMMENTS)} comment shapes between tokens; '
+            f'{len(bases)} programs (generated, a third fault-free; the shipped examples; re-execution programs) x 11 variants: re-laid-out twice with blanks, tabs, line breaks outside ধরি declarations and {len(COMMENTS)} comment shapes between tokens; '
             'digits swapped between scripts; && / এবং and || / বা exchanged; user identifiers renamed to fresh Latin / Bangla names, to natural-language words that are not keywords (vlib/words.py), and to names that differ only by canonical equivalence (precomposed / split vowel signs, nukta letters); all of these combined; redundant parentheses around value-producing sub-expressions; never-executed code inserted. '
             'All variants of a program must print the same and fail the same (line numbers and renamed names aside) on the implementation alone, and each must agree with the model. Non-trivial = all.')
     return {'cases': cases, 'rule': rule, 'exhaustive': False, 'oracles': [oracle_c18]}
